@@ -43,6 +43,7 @@ def main():
             {"name": "coq", "path": "coq/theories", "serves_properties": sorted(CLAIMS), "kind_free_text": "Coq 8.16 development: executable Gallina models + theorems; Props/Cxx.v hold the property theorems"},
             {"name": "fpmodel", "path": "coq/driver", "serves_properties": sorted(CLAIMS), "kind_free_text": "OCaml driver around the extracted model, used by the correspondence engines"},
             {"name": "harness", "path": "harness", "serves_properties": sorted(CLAIMS), "kind_free_text": "Python correspondence engines (E1 LP structure, E2 verified checkers/oracles, E3 exact outputs, E4 histories)"},
+            {"name": "translator", "path": "harness/translate.py", "serves_properties": ["C01", "C02", "C10", "C12", "C17", "C19"], "kind_free_text": "fail-closed Python-ast -> Gallina translator: models of selected functions are REGENERATED from /repo's source on every run; proof scripts in coq/gen_proofs are compiled against the generated files (DESIGN 10.7)"},
         ],
         "checks": checks,
         "not_applicable": na,
